@@ -90,11 +90,13 @@
    C12_check_compat_mixup_fixed_real [F]: the state that used to panic (a wf_ops history on the real tables) is now checked.
    C12_serialize_file_total [U]: ArxmlFile::serialize returns for every file record in an H2 world and keeps H2.
    C12_coverage_step2: PENDING as steps are OpDuplicate and OpLoad.  Missing, precisely:
-     OpDuplicate  (i) H12 is not kept by a FAILING duplicate: the dropped copy's root keeps `PModel c` for the dropped model number
-                  (agent-c13's class dup_failed) — PMB breaks, and `op_wf` would have to exclude the garbage nodes (no handle to
-                  them exists in the library); (ii) for a successful duplicate the body is new_model, create_file*, copy* (all
-                  covered operations) plus three record updates (root attributes, xml_standalone, local file sets): missing is
-                  the loop induction carrying H2, agent-c10's FilesOwned (file ids of m_files exist) and SizeOk at every copy.
+     OpDuplicate  as a CALL it is covered: C12_duplicate_total [U] (D = H2 /\ agent-c10's FilesOwned; dup_sized = SizeOk whenever
+                  the call is about to copy a child, the assumption wf_ops makes for every copy of a history) and
+                  C12_duplicate_after_history [F]: after any history of covered steps duplicate returns (Ok or Err).
+                  As a STEP it is pending: a FAILING duplicate drops the copy's model record but leaves its root with the
+                  parent link `PModel c` (agent-c13's class dup_failed): PMB breaks and `op_wf` would have to exclude the
+                  garbage nodes (no handle to them exists in the library); for a successful duplicate the missing lemma is
+                  "D is kept by the membership loop" (local file sets translated through the file map name existing files).
      OpLoad       the parser is total (C02_load_total); install / merge are proved total by agent-c09 for Good masters only
                   (Tree/LoadRefineIndex.v); missing: H12 for the loaded tree (checked types, names, values of the parser's
                   output: RE / RV / RX / CharsLeaf / OriginsRef for install_tree) and totality of the merge for arbitrary H2 worlds. *)
@@ -105,6 +107,7 @@ From AV Require Import Hash.HashRealAttr Tree.Script2 Tree.SortProofsHeap Tree.S
   Tree.NoPanicProofsHist Tree.NoPanicProofsHistReal Tree.NoPanicProofsOp2 Tree.SortProofsReal Tree.NoPanicProofsHistEx.
 From AV Require Import Tree.Compat Tree.Serialize Tree.NoPanicProofsFiles Tree.NoPanicProofsSerFile Tree.NoPanicProofsCompat
   Tree.NoPanicProofsCompatEx Tree.NoPanicProofsOp2Hist Tree.NoPanicProofsOp2HistReal Tree.NoPanicProofsOp2HistEx.
+From AV Require Tree.Copy Tree.Files Tree.NoPanicProofsDup Tree.NoPanicProofsDupHist.
 Open Scope N_scope.
 
 Theorem C12_no_panic_partial :
@@ -352,3 +355,38 @@ Theorem C12_histories2_nonvacuous :
   exists w', run_ops2F RT tab_element tab_attr tab_enum nv_check (fun _ => None) ex_fmt 1048576 3516 6311 78 [] ex2_hist empty_world = Val w' /\
              option_map n_content (w_nodes w' 1) = Some [CElem 4; CElem 2].
 Proof. exact (conj ex2_wf ex2_runs). Qed.
+
+(* ---- AutosarModel::duplicate as a call ---- *)
+Theorem C12_duplicate_total :
+  forall (T : tables) (tab_el tab_at tab_en : nametab) (check_fn : N -> list N -> res bool) (LATEST : N) (root_attrs : list (N * cdata)),
+    tables_ok12 T = true ->
+    (forall fn s, exists b, check_fn fn s = Val b) ->
+    (forall i e, i < n_elements T -> T_elements T i = Some e -> to_str tab_el (ed_name e) <> None) ->
+    (forall k items it, T_cdata T k = Some (CEnum items) -> In it items -> to_str tab_en (fst it) <> None) ->
+    (forall k name cdid req, T_attributes T k = Some (name, cdid, req) -> to_str tab_at name <> None) ->
+    attrV tab_at tab_en root_attrs ->
+    (forall ty cs v ver, is_ref T ty = Val true -> chardata_spec T ty = Val (Some cs) ->
+                         check_value check_fn v cs ver = Val true -> exists s, v = DString s) ->
+    (forall ty, et_new T (autosar_element T) = Val ty -> plainty T ty) ->
+    forall w m,
+      H2 T tab_el tab_at tab_en w -> Files.FilesOwned w -> m < N.of_nat (List.length (w_models w)) -> NoPanicProofsDup.dup_sized T LATEST root_attrs m w ->
+      exists r w', Copy.m_duplicate T tab_el tab_en check_fn LATEST root_attrs m w = Val (r, w').
+Proof.
+  exact (fun T tab_el tab_at tab_en check_fn LATEST root_attrs OK CH NO EO AO RO TK RT w m I O L S =>
+           NoPanicProofsDup.np_duplicate T tab_el tab_at tab_en check_fn LATEST root_attrs OK CH NO EO AO RO TK RT w m (conj I O) L S).
+Qed.
+
+Theorem C12_duplicate_after_history :
+  forall (check_fn : N -> list N -> res bool) (float_parse : list N -> option N) (fmt : N -> list N)
+         (LATEST name_index name_definition_ref attr_schema_location : N) (root_attrs : list (N * cdata)),
+    (forall fn s, exists b, check_fn fn s = Val b) ->
+    (forall a, In a root_attrs -> to_str tab_attr (fst a) <> None /\ cdata_named tab_enum (snd a)) ->
+    forall l w m,
+      run_ops2F RT tab_element tab_attr tab_enum check_fn float_parse fmt LATEST name_index name_definition_ref
+                attr_schema_location root_attrs l empty_world = Val w ->
+      wf_ops2 RT tab_element tab_attr tab_enum check_fn float_parse fmt LATEST name_index name_definition_ref attr_schema_location
+              root_attrs l empty_world ->
+      m < N.of_nat (List.length (w_models w)) -> NoPanicProofsDup.dup_sized RT LATEST root_attrs m w ->
+      (forall s, Copy.m_duplicate RT tab_element tab_enum check_fn LATEST root_attrs m w <> Pan s) /\
+      Copy.m_duplicate RT tab_element tab_enum check_fn LATEST root_attrs m w <> Fuel.
+Proof. exact duplicate_after_history_real. Qed.
